@@ -381,6 +381,12 @@ def rule_A1_records(tree: Tree) -> RuleResult:
                             f"an exception from {fk} ({cls}; e.g. `{s0.text}` line {s0.line}) leaves the per-packet body of get_tls_records: the session's builder "
                             f"is never reached and everything already decrypted for this connection is lost — a longer capture then exports less than its prefix",
                             f.module.line(loop), es.chain(f, s0)))
+    # … and nothing outside the loop may raise either (code after the loop runs when all records are already accumulated)
+    r.instances += 1
+    rest = [s for s in es.esc[f]]
+    r.ob(not rest, Finding("A1r", "session:Session.get_tls_records:escape-outside-loop",
+                           f"get_tls_records can raise outside its per-packet handler ({sorted({(s.cls, s.text[:50], s.line) for s in rest})[:3]}): the exception aborts Session.decrypt "
+                           f"before the builder runs and everything decrypted for this connection is lost", f.module.line(f.node)))
     # the builder call post-dominates the loop in Session.decrypt
     r.instances += 1
     d = tree.func("session", "Session.decrypt")
